@@ -120,7 +120,7 @@ func (a *authn) Execute(ctx heimdall.Context) (*subject.Subject, error) {
 	return a.f.Script.Authenticate(a.s, ctx)
 }
 func (a *authn) WithConfig(map[string]any) (authenticators.Authenticator, error) { return a, nil }
-func (a *authn) IsFallbackOnErrorAllowed() bool                                 { return a.s.Fallback }
+func (a *authn) IsFallbackOnErrorAllowed() bool                                  { return a.s.Fallback }
 
 type handler struct {
 	f *Factory
